@@ -19,7 +19,9 @@ LEVEL_TEXT = (
     "through a re-applied copy; hooks run only behind `payload is None`, `not is_join_identity`, `max_rows != 0` and are "
     "fed the processed (never the raw) source; the chain branch dropped is the one tested empty; operations are "
     "re-inserted through the validating apply(); the dispatch is total; and a payload is read from / attached to a node "
-    "that can own one (never an engine's wrapper marker).  That the rows of the processed tree equal direct evaluation "
+    "that can own one (never an engine's wrapper marker); every returning path of an arm has recursed into every operand "
+    "of the node (must-pass-through; only a statically trivial transfer may skip it); payload-owning markers are re-applied "
+    "as plain copies with exactly the given target and payload; no cached payload is mutated in place.  That the rows of the processed tree equal direct evaluation "
     "is a runtime statement and is not decided."
 )
 LEVEL_NOTE = "Trusted: hooks implemented by the caller return truthful payloads; C09/C10 for the no-mutation and write-once parts."
